@@ -9,9 +9,10 @@ from pyvc.sym import Sym
 META = {
     "explanation": "under the unit abstraction 5.1 (generic units of symbolic scale = 'any compatible unit'): each relation called with quantities returns the same physical (SI) value and the dimension of the quantity it names as the plain call in documented units; range warnings are emitted iff a temperature/pressure lies outside the documented range; Henry inverses; literature coefficients and anchor values as data obligations; the salting-out sum for any concentrations in any units; density_from_concentration returns a fixed point of the forward correlation within atol for ANY forward correlation (loop invariant, uninterpreted callback)",
     "trusted_base": ["assumed contract 5.1 (pyvc/qmodel.py) for the `quantities` package, validated against the real package in C09", "assumed contract 5.3 (exp/log as real functions)",
-                     "published coefficients/anchors typed into this file from Tanaka 2001, Korson 1969, Holz 2000, Bradley-Pitzer 1979"],
+                     "published coefficients/anchors typed into this file from Tanaka 2001, Korson 1969, Holz 2000, Bradley-Pitzer 1979; handbook densities of sulfuric acid (Int. Crit. Tables / Perry) and Sechenov constants of oxygen (Davis et al. 1967)"],
     "not_decided": ["fidelity of the correlations to nature beyond the published anchors", "temperatures in scaled units (outside the property's quantifier; the code supports kelvin only)",
-                    "sulfuric_acid_density itself (float() of the temperature and numpy arrays inside: bounded stand-in); density_from_concentration is proved for an arbitrary forward correlation without units only (with units: stand-in)"],
+                    "sulfuric_acid_density itself symbolically (float() of the temperature and numpy arrays inside: data obligations here, bounded stand-in); the coefficient table of Myhre 1998 and the parameter tables of Schumpe 1993 are not typed in from the papers (not at hand): handbook / measured anchors only",
+                    "density_from_concentration is proved for an arbitrary forward correlation without units and with a units object and inputs in mol/dm3, g/mol, g/cm3 (generic units: stand-in); that it RETURNS is shown for a constant correlation and, as data, for sulfuric_acid_density up to w = 0.6"],
     "assumptions": ["temperatures are quantified in kelvin (the documented unit)"],
 }
 Fr = fractions.Fraction
@@ -46,7 +47,12 @@ def dimv(q):
 
 
 def _range_warnings(v):
-    return [e for e in v.events("warning") if "range" in str(e[1]).lower()]
+    # every warning of the call counts, whatever its wording: the correlations have nothing else to warn about, so a reworded range warning
+    # is still the range warning and a warning of any other text inside the range is still a violation of 'never when all inputs lie inside'
+    # (the events carry the message only; the category is not recorded by the engine).  Not counted: numpy's floating-point RuntimeWarnings
+    # ('invalid value / divide by zero / overflow / underflow encountered in log'), which the arithmetic itself gives far outside a range
+    # (water_permittivity(676 K, 3.6 bar) takes the log of a negative number) and which are no statement of the library about a range
+    return [e for e in v.events("warning") if " encountered in " not in str(e[1])]
 
 
 def _warned(v):
@@ -133,11 +139,15 @@ def _(v):
     dens = [water_density(T, warn=False) for T in grid]
     imax = max(range(len(grid)), key=lambda i: dens[i])
     v.prove("densest_near_4C", 3.9 <= grid[imax] - 273.15 <= 4.1, "maximum at %.2f C" % (grid[imax] - 273.15))
-    v.prove("korson_parameters", (K.A, K.B, K.C, K.eta20_cP) == (1.1709, 0.001827, 89.93, 1.0020))
+    # the published constants, wherever the module exposes them under these names (where it keeps them is not part of the property: a module
+    # that has them inside the function is pinned by water_viscosity.units_equal_plain.formula / the anchors alone)
+    kp = {"A": 1.1709, "B": 0.001827, "C": 89.93, "eta20_cP": 1.0020}
+    v.prove("korson_parameters", all(getattr(K, n) == x for n, x in kp.items() if hasattr(K, n)), detail=repr({n: getattr(K, n, None) for n in kp}))
     v.prove("korson_anchor_20C", abs(water_viscosity(293.15) - 1.0020) < 1e-12)
     vis = [water_viscosity(273.15 + i) for i in range(101)]
     v.prove("viscosity_decreasing", all(a > b for a, b in zip(vis, vis[1:])))
-    v.prove("holz_parameters", (H.D0, H.TS, H.gamma) == (1.635e-8, 215.05, 2.063))
+    hp = {"D0": 1.635e-8, "TS": 215.05, "gamma": 2.063}
+    v.prove("holz_parameters", all(getattr(H, n) == x for n, x in hp.items() if hasattr(H, n)), detail=repr({n: getattr(H, n, None) for n in hp}))
     v.prove("holz_anchor_25C", abs(water_self_diffusion_coefficient(298.15) / 2.299e-9 - 1) < 5e-3)
     v.prove("bradley_pitzer_U", tuple(water_permittivity(just_return_U=True)) == (3.4279e2, -5.0866e-3, 9.4690e-7, -2.0525, 3.1159e3, -1.8289e2, -8.0325e3, 4.2142e6, 2.1417))
     v.prove("permittivity_anchor_25C_1bar", abs(water_permittivity(298.15, 1) - 78.38) < 0.1)
@@ -212,8 +222,9 @@ def _(v):
         c = v.call(Henry(Hq, Td * u.K).get_c_at_T_and_P, T * u.K, P * pu, units=u)
         v.prove("concentration_dimension", dimv(c) == (-3, 0, 0, 0, 0, 0, 1))
         v.prove_identity("concentration_value", si(v, c), P * plain * table.scale["cu"])
-        # the class that carries units by default (its `units` default is the module's default_units), with an explicit reference temperature,
-        # and the inverse helper with units: pressure from concentration inverts concentration from pressure
+        # the class that carries units by default, here with an explicit reference temperature (the `units` argument is then not read; the default
+        # argument itself is under contract in the data harness HenryWithUnits.default_units: a default is bound when the def is executed, the
+        # override below does not reach it), and the inverse helper with units: pressure from concentration inverts concentration from pressure
         from chempy.henry import HenryWithUnits
         v.override_global("chempy.henry", "default_units", u)
         T0 = v.real("T0", lo=250, hi=400)
@@ -229,6 +240,51 @@ def _(v):
     else:
         withu = v.call(Henry_H_at_T, T * u.K, H * u.mM / u.bar, Td * u.K, units=u)
         v.prove("same_physical_value", v.eq(si(v, withu, u.molar / u.pascal), float(plain) * 1e-3 / 1e5, rel=1e-9))
+
+
+@harness("C19", "HenryWithUnits.default_units", functions=["chempy.henry:HenryWithUnits.__call__", "chempy.henry:Henry.get_c_at_T_and_P", "chempy.henry:Henry.get_P_at_T_and_c"], kind="data")
+def _(v):
+    """'Henry's law with van 't Hoff temperature dependence ... quantities expressed in any compatible units', for what distinguishes
+    HenryWithUnits from Henry: called with a temperature only (no units argument, no reference temperature) it works with quantities, the
+    reference temperature being 298.15 K.  Expected values by hand: H(T) = H0 exp(B (1/T - 1/298.15)); c = P H(T); P = c / H(T), in whatever
+    compatible units the inputs are written (M/atm vs mol/m3/Pa, atm vs Pa, M vs mM).  A backend handed to the call (by keyword or in the third
+    position) is the one whose exp is used.  With the real `quantities` package (the symbolic harness above cannot see a default argument)"""
+    import math
+    from chempy.henry import HenryWithUnits
+    from chempy.units import default_units as u, to_unitless
+    H0, B = 1.2e-3, 1800.0                                   # M/atm, K
+    atm = 101325.0                                           # Pa (exact by definition)
+    for T in (278.15, 298.15, 310.0):
+        want = H0 * math.exp(B * (1 / T - 1 / 298.15))       # M/atm
+        for label, Hq in (("M_per_atm", H0 * u.molar / u.atm), ("mol_per_m3_per_Pa", (H0 * 1000 / atm) * u.mol / u.m ** 3 / u.pascal)):
+            name = "%s.T_%d" % (label, round(T))
+            try:
+                hw = HenryWithUnits(Hq, B * u.K)
+                got = float(to_unitless(hw(T * u.K), u.molar / u.atm))
+                c = float(to_unitless(hw.get_c_at_T_and_P(T * u.K, 2 * atm * u.pascal), u.mM))
+                P = float(to_unitless(hw.get_P_at_T_and_c(T * u.K, 3.0 * u.mM), u.atm))
+                ok = abs(got / want - 1) < 1e-9 and abs(c / (2 * want * 1000) - 1) < 1e-9 and abs(P / (3e-3 / want) - 1) < 1e-9
+                det = repr((got, want, c, P))
+            except Exception as ex:
+                ok, det = False, repr(ex)[:200]
+            v.prove(name, ok, detail=det)
+
+    class Recording:
+        def __init__(self):
+            self.calls = 0
+
+        def exp(self, x):
+            self.calls += 1
+            return math.exp(x)
+    want = H0 * math.exp(B * (1 / 310.0 - 1 / 298.15))
+    for label, call in (("keyword", lambda hw, be: hw(310.0 * u.K, backend=be)), ("third_position", lambda hw, be: hw(310.0 * u.K, u, be))):
+        be = Recording()
+        try:
+            got = float(to_unitless(call(HenryWithUnits(H0 * u.molar / u.atm, B * u.K), be), u.molar / u.atm))
+            ok, det = be.calls >= 1 and abs(got / want - 1) < 1e-9, repr((got, want, be.calls))
+        except Exception as ex:
+            ok, det = False, repr(ex)[:200]
+        v.prove("backend_by_%s_is_used" % label, ok, detail=det)
 
 
 # ---------------------------------------------------------------------------- Nernst, mobility
@@ -313,7 +369,8 @@ def _(v):
 def _(v):
     """'salting-out of gases': lg(c0/c) = sum_i (h_gas + h_ion_i) c_i for every set of concentrations; with units each concentration may be in
     its own compatible unit and the result is the same pure number; the fluoride warning is emitted iff fluoride is among the electrolytes
-    (and warnings are asked for); the published parameters are pinned in the data harness"""
+    (and warnings are asked for).  The SUM is what is proved here: the two parameters are read from the module's own tables (the published tables
+    of Schumpe 1993 are not at hand to be typed in; what can be said about the numbers without them is in lg_solubility_ratio.parameters)"""
     from chempy.properties import gas_sol_electrolytes_schumpe_1993 as S
     fn = S.lg_solubility_ratio
     ions = v.choice("ions", [("Na+", "Cl-"), ("K+", "SO4-2", "H+"), ("Mg+2", "F-"), ("Na+",)])
@@ -342,6 +399,38 @@ def _(v):
         v.prove("same_value_any_concentration_units", v.eq(si(v, withu, u.dimensionless), float(want), rel=1e-9, abs_=1e-12))
 
 
+@harness("C19", "lg_solubility_ratio.parameters", functions=["chempy.properties.gas_sol_electrolytes_schumpe_1993:lg_solubility_ratio"], kind="data")
+def _(v):
+    """'reproduce their published anchor values' for the salting-out model, as far as it can be said without the paper's tables: (1) the model's
+    reference points -- the parameters are only determined up to a shift between gases and ions and between cations and anions, and the paper fixes
+    them by h(H+) = 0 and h(O2) = 0; (2) the abstract's coverage '20 cations and 19 anions on the solubilities of 15 gases' (two organic anions
+    may be left out); (3) measured Sechenov constants that the model was fitted to: oxygen in NaCl 0.14 dm3/mol and in KOH 0.175 dm3/mol
+    (Davis, Horvath, Tobias 1967) at 25 C, a band of +-0.02 dm3/mol; through the function, not through the tables"""
+    from chempy.properties import gas_sol_electrolytes_schumpe_1993 as S
+    fn = S.lg_solubility_ratio
+
+    def lg(salt, gas):
+        try:
+            return float(fn(salt, gas, None, False))
+        except Exception as ex:
+            return repr(ex)[:80]
+    # lg(c0/c) of 1 M HX in oxygen minus that of 1 M X alone is h(H+) + h(O2) = 0, for any X
+    r = [(lg({"H+": 1.0, x: 1.0}, "O2"), lg({x: 1.0}, "O2")) for x in ("Cl-", "NO3-", "SO4-2")]
+    v.prove("reference_points_H+_and_O2_are_zero", all(isinstance(a, float) and isinstance(b, float) and abs(a - b) < 1e-12 for a, b in r) and lg({"H+": 1.0}, "O2") == 0.0, detail=repr(r))
+    try:
+        ions, gases = list(S.p_ion_rM), list(S.p_gas_rM)
+        cations, anions = [k for k in ions if "+" in k], [k for k in ions if k.endswith("-") or "-" in k[-2:]]
+        ok = len(gases) == 15 and len(cations) == 20 and 17 <= len(anions) <= 19 and len(cations) + len(anions) == len(ions)
+        ok = ok and all(isinstance(x, float) and abs(x) < 0.3 for x in list(S.p_ion_rM.values()) + list(S.p_gas_rM.values()))
+        det = repr((len(gases), len(cations), len(anions)))
+    except Exception as ex:
+        ok, det = False, repr(ex)[:200]
+    v.prove("coverage_of_the_published_tables", ok, detail=det)
+    a, b = lg({"Na+": 1.0, "Cl-": 1.0}, "O2"), lg({"K+": 1.0, "OH-": 1.0}, "O2")
+    v.prove("oxygen_in_1M_NaCl", isinstance(a, float) and abs(a - 0.14) < 0.02, detail=repr(a))
+    v.prove("oxygen_in_1M_KOH", isinstance(b, float) and abs(b - 0.175) < 0.02, detail=repr(b))
+
+
 # ---------------------------------------------------------------------------- density from concentration (inverse helper), any forward correlation
 @harness("C19", "density_from_concentration", functions=["chempy.properties.sulfuric_acid_density_myhre_1998:density_from_concentration"], div_mode="assume", samples=0)
 def _(v):
@@ -358,7 +447,7 @@ def _(v):
     f = z3.Function("rho_forward", z3.RealSort(), z3.RealSort(), z3.RealSort())
     asked, witness = [], []
 
-    def rho_cb(w, T_, units=None, warn=True):
+    def rho_cb(w, T_, units=None, warn=None):
         asked.append((T_, units, warn))
         return Sym(f(to_z3(w), to_z3(T_)))
 
@@ -377,7 +466,124 @@ def _(v):
         v.prove("returned_density_is_a_fixed_point_within_atol", (abs(step) <= atol) & (r - step != 0) & wrap(to_z3(r) == f(to_z3(conc * M / (r - step)), to_z3(T))))
     else:
         v.prove("only_refusal_is_NoConvergence", out.raised(NoConvergence))
-    v.prove("callback_asked_about_the_callers_temperature_without_units", all(t_ is T and un is None and wa is False for t_, un, wa in asked))
+    # the temperature by VALUE (a copy or float(T) of it is the caller's temperature too); no units object, because the caller gave none; the
+    # caller did not ask for warnings: the flag is either handed on as False or left to the callback (None here) -- never switched on
+    v.prove("callback_asked_about_the_callers_temperature_without_units",
+            SP.conj([t_ == T for t_, un, wa in asked] + [un is None and (wa is None or wa is False) for t_, un, wa in asked]))
+
+
+@harness("C19", "density_from_concentration.units", functions=["chempy.properties.sulfuric_acid_density_myhre_1998:density_from_concentration"], div_mode="assume", samples=0)
+def _(v):
+    """the same clause with a units object and the inputs in scaled units (the quantifier's 'M vs mM, g vs kg'): the concentration in mol/dm3, the
+    molar mass in g/mol, the tolerance in g/cm3, the temperature in kelvin; the forward correlation is again uninterpreted, is told the PHYSICAL
+    mass fraction conc*M/rho (a pure number) and answers in kg/m3.  Whenever a density is returned it has the dimension of a density and is, in SI,
+    a fixed point of the forward correlation within the tolerance; the callback gets the caller's temperature and the caller's units object"""
+    import z3
+    from pyvc.sym import Sym, to_z3, wrap, fresh_name
+    from pyvc.qmodel import Quantity, si_value
+    from chempy.properties.sulfuric_acid_density_myhre_1998 import density_from_concentration as g
+    from chempy.util import NoConvergence
+    conc, T, M, atol = v.real("conc", lo=0), v.real("T", lo=200), v.real("M", lo=1e-3), v.real("atol", lo=1e-9)   # SI: mol/m3, K, kg/mol, kg/m3
+    maxiter = v.int("maxiter", lo=1, hi=1000)
+    u, table = units_env(v)
+    f = z3.Function("rho_forward", z3.RealSort(), z3.RealSort(), z3.RealSort())
+    asked, witness, fractions_with_a_dimension = [], [], []
+    Tq = T * u.K
+
+    def rho_cb(w, T_, units=None, warn=None):
+        asked.append((T_, units, warn))
+        if dimv(w) != (0,) * 7:
+            fractions_with_a_dimension.append(w)
+        return Sym(f(to_z3(si_value(w)), to_z3(si_value(T_)))) * u.kg / u.m ** 3
+
+    def inv(env, i, seq):
+        it, rho, d = env["iter_idx"], si_value(env["rho"]), si_value(env["delta_rho"])
+        if isinstance(d, float):                 # the state before the first iteration: delta_rho = inf kg/m3 exceeds every tolerance
+            return d == float("inf") and it == 0
+        witness[:] = [d]
+        later = (it >= 1) & (it <= maxiter + 1) & (rho - d != 0) & wrap(to_z3(rho) == f(to_z3(conc * M / (rho - d)), to_z3(T)))
+        return ((it == 0) & (atol < abs(d))) | later
+    # the loop-carried densities are quantities in the units they have on entry (kg/m3), of any magnitude
+    same_units = lambda n, old: Quantity(Sym(z3.Real(fresh_name(n))), old.u, old.t)
+    v.invariant(g, 0, inv, shapes={"rho": same_units, "delta_rho": same_units})
+    out = v.run(g, (conc / 1000) * u.molar, Tq, (M * 1000) * u.g / u.mol, rho_cb, u, (atol / 1000) * u.g / u.cm ** 3, maxiter)
+    if out.returned:
+        r, step = si_value(out.value), witness[0]
+        v.prove("returned_density_has_the_dimension_of_a_density", dimv(out.value) == (-3, 1, 0, 0, 0, 0, 0))
+        v.prove("returned_density_is_a_fixed_point_within_atol", (abs(step) <= atol) & (r - step != 0) & wrap(to_z3(r) == f(to_z3(conc * M / (r - step)), to_z3(T))))
+    else:
+        v.prove("only_refusal_is_NoConvergence", out.raised(NoConvergence))
+    v.prove("callback_asked_about_the_callers_temperature_with_the_callers_units",
+            SP.conj([si_value(t_) == T for t_, un, wa in asked] + [dimv(t_) == (0, 0, 0, 0, 1, 0, 0) and un is u and (wa is None or wa is False) for t_, un, wa in asked]))
+    v.prove("mass_fraction_is_a_pure_number", not fractions_with_a_dimension)
+
+
+@harness("C19", "density_from_concentration.constant_correlation", functions=["chempy.properties.sulfuric_acid_density_myhre_1998:density_from_concentration"],
+         div_mode="assume", samples=20)
+def _(v):
+    """liveness of 'the inverse helpers invert the forward ones' (the invariant harness only says what a RETURNED density is; an implementation that
+    always refuses would satisfy it): for a forward correlation that is constant, rho_cb = c, the fixed point is c and the iteration has arrived
+    after at most two evaluations (the second step is exactly 0, below every positive tolerance), so with room for two iterations (maxiter >= 2,
+    or the documented default of 10) the helper must RETURN c; it must have asked the correlation at least once"""
+    from chempy.properties.sulfuric_acid_density_myhre_1998 import density_from_concentration as g
+    conc, T, M, atol = v.real("conc", lo=0, hi=2e4), v.real("T", lo=200, hi=400), v.real("M", lo=1e-3, hi=1), v.real("atol", lo=1e-9, hi=1)
+    c = v.real("c", lo=1, hi=3000)
+    maxiter = v.choice("maxiter", [2, 3, 10, None])
+    asked = []
+
+    def rho_cb(w, T_, units=None, warn=None):
+        asked.append(T_)
+        return c
+    out = v.run(g, conc, T, M, rho_cb, None, atol, maxiter) if maxiter is not None else v.run(g, conc, T, M, rho_cb, None, atol)
+    v.prove("returns_the_constant", out.returned and out.value == c, detail=repr(out.exc))
+    v.prove("correlation_was_asked", len(asked) >= 1)
+
+
+@harness("C19", "density_from_concentration.inverts_sulfuric_acid_density", functions=["chempy.properties.sulfuric_acid_density_myhre_1998:density_from_concentration",
+                                                                                     "chempy.properties.sulfuric_acid_density_myhre_1998:sulfuric_acid_density"], kind="data")
+def _(v):
+    """'the inverse helpers (... density from concentration) invert the forward ones' with the documented defaults (forward correlation
+    sulfuric_acid_density, molar mass of H2SO4, tolerance 1e-3 kg/m3, 10 iterations): the concentration that belongs to mass fraction w at
+    temperature T is c = w*rho(w, T)/M with M = 2*1.00794 + 32.066 + 4*15.9994 g/mol = 98.07948 g/mol (hand-added standard atomic weights), and the
+    helper gives rho(w, T) back.  Tolerance: the last step of the iteration is below 1e-3 kg/m3 and the iteration contracts by a factor
+    |d rho/d w| * w/rho of about 0.5 or less over 0.1 <= w <= 0.9 (handbook densities: 1611 -> 1727 kg/m3 from 70 to 80 %, 0.7*1160/1611 = 0.5),
+    so the answer is within about 1e-3 kg/m3 of the fixed point; 1e-2 kg/m3 (1e-5 relative) is asked.
+    The same with a units object and the concentration in mol/dm3 ('M vs mM'), and nothing in the documented range gives a warning when
+    warnings are not asked for"""
+    import warnings
+    from chempy.properties.sulfuric_acid_density_myhre_1998 import density_from_concentration as g, sulfuric_acid_density as f
+    from chempy.units import default_units as u, to_unitless
+    M_H2SO4 = 98.07948e-3    # kg/mol
+    bad, bad_u, warned = [], [], []
+    # the default of 10 iterations is enough up to w = 0.3 (start 1100 kg/m3, error below 150 kg/m3, contraction 0.25 or better: 150*0.25**9 < 1e-3);
+    # more concentrated acid is documented to need a larger maxiter ('NoConvergence when maxiter is exceeded' is no defect), 100 is given there
+    # Up to w = 0.6 only: there the first iterate c*M/1100 = w*rho/1100 <= 0.6*1516/1100 = 0.83 is still a mass fraction inside the documented
+    # range of the forward correlation; for w >= 0.8 the first iterate is a 'mass fraction' above 1 and the helper is at the mercy of the polynomial
+    # outside its range (on the pinned tree: NoConvergence for every maxiter) -- what the helper owes there is not decided by the property
+    for w in (0.1, 0.15, 0.2, 0.25, 0.3, 0.4, 0.5, 0.6):
+        kw = {} if w <= 0.3 else {"maxiter": 100}
+        for T in (273.15, 283.15, 293.15, 298.15):
+            with warnings.catch_warnings(record=True) as ws:
+                warnings.simplefilter("always")
+                try:
+                    rho = float(f(w, T))
+                    c = w * rho / M_H2SO4
+                    got = float(g(c, T, **kw))
+                    if not abs(got - rho) < 1e-2:
+                        bad.append((w, T, rho, got))
+                except Exception as ex:
+                    bad.append((w, T, repr(ex)[:80]))
+                try:
+                    gq = g((c / 1000) * u.molar, T * u.K, units=u, **kw)
+                    got = float(to_unitless(gq, u.kg / u.m ** 3))
+                    if not abs(got - rho) < 1e-2:
+                        bad_u.append((w, T, rho, got))
+                except Exception as ex:
+                    bad_u.append((w, T, repr(ex)[:80]))
+            warned.extend(str(x.message) for x in ws)
+    v.prove("density_of_the_concentration_that_belongs_to_a_mass_fraction", not bad, detail=repr(bad[:3]))
+    v.prove("the_same_with_units_and_molar_concentration", not bad_u, detail=repr(bad_u[:3]))
+    v.prove("silent_in_the_documented_range", not warned, detail=repr(warned[:3]))
 
 
 @harness("C19", "nernst_potential.arrays_and_symbols", functions=["chempy.electrochemistry.nernst:nernst_potential"], kind="data")
@@ -419,15 +625,19 @@ def _(v):
     """(a) 'the same physical value whether its inputs are plain numbers in the documented units or quantities expressed in any compatible units':
     the mass fraction given as 50 percent or 500 g/kg is the mass fraction 0.5, with and without a units object, and the range warning is
     decided on that value; a quantity that is no pure number is refused. (b) 'qualitative shape': the density of the acid falls with rising
-    temperature at every composition of the documented range 0.1..0.9, 0..50 C (a physical fact, not a transcription of the code)"""
+    temperature at every composition of the documented range 0.1..0.9, 0..50 C (a physical fact, not a transcription of the code).
+    (c) 'published anchor values': the handbook densities at 0 C and 20 C, with no range warning for these inputs inside the range"""
     import warnings
     import numpy as np
     from chempy.properties.sulfuric_acid_density_myhre_1998 import sulfuric_acid_density as f
     from chempy.units import default_units as u, to_unitless
+    bad = []
     with warnings.catch_warnings(record=True) as ws:
         warnings.simplefilter("always")
-        plain = float(f(0.5, 293.0))
-    bad = []
+        try:
+            plain = float(f(0.5, 293.0))
+        except Exception as ex:
+            plain, bad = float("nan"), [("plain", repr(ex)[:80])]
     for label, w in (("percent", 50 * u.percent), ("g_per_kg", 500 * u.g / u.kg), ("pure_number_quantity", 0.5 * u.dimensionless)):
         with warnings.catch_warnings(record=True) as ws:
             warnings.simplefilter("always")
@@ -444,14 +654,46 @@ def _(v):
     except Exception:
         ok = True
     v.prove("mass_fraction_with_a_dimension_refused", ok)
-    with warnings.catch_warnings(record=True) as ws:
-        warnings.simplefilter("always")
-        f(5 * u.percent, 293.0 * u.K, units=u)
-    v.prove("range_warning_decided_on_the_value", any("fraction" in str(x.message).lower() for x in ws))
+    # the temperature (20 C) is inside its range in all these calls, so a warning, whatever its wording, is the one about the mass fraction:
+    # emitted for 5 % and 950 g/kg (outside 0.1..0.9), not for 11 % and 890 g/kg (inside), and never when warnings are switched off
+    wrong = []
+    for w, kw, expect in ((5 * u.percent, {}, True), (950 * u.g / u.kg, {}, True), (11 * u.percent, {}, False), (890 * u.g / u.kg, {}, False),
+                          (5 * u.percent, {"warn": False}, False), (0.95, {"warn": False}, False)):
+        with warnings.catch_warnings(record=True) as ws:
+            warnings.simplefilter("always")
+            try:
+                f(w, 293.0 * u.K, units=u, **kw)
+                if (len(ws) >= 1) != expect:
+                    wrong.append((str(w), kw, [str(x.message) for x in ws]))
+            except Exception as ex:
+                wrong.append((str(w), kw, repr(ex)[:80]))
+    v.prove("range_warning_decided_on_the_value", not wrong, detail=repr(wrong[:3]))
+    # (c) 'reproduce their published anchor values': the handbook table of the density of aqueous sulfuric acid (International Critical Tables, as
+    # reprinted in Perry's / the CRC handbook; g/cm3 at mass percent), typed from the handbook, not from the code.  The correlation is a fit to the
+    # authors' own measurements, the two agree to about 0.1 %: 1e-3 is asked at 0 C and 3e-3 at 20 C.  (The handbook column for 50 C -- 1371.9 at
+    # 50 %, 1782.9 at 90 % -- is NOT reproduced, see falls_with_temperature below and the known finding F-C19e.)
+    handbook = {273.15: (1e-3, {0.1: 1.0735, 0.5: 1.4110, 0.9: 1.8361}),
+                293.15: (3e-3, {0.1: 1.0661, 0.2: 1.1394, 0.3: 1.2185, 0.4: 1.3028, 0.5: 1.3951, 0.6: 1.4983, 0.7: 1.6105, 0.8: 1.7272, 0.9: 1.8144})}
+    for T, (tol, table) in sorted(handbook.items()):
+        off = []
+        with warnings.catch_warnings(record=True) as ws:
+            warnings.simplefilter("always")
+            for w, gcm3 in sorted(table.items()):
+                try:
+                    got = float(f(w, T))
+                    if not abs(got / (1000 * gcm3) - 1) < tol:
+                        off.append((w, got, 1000 * gcm3))
+                except Exception as ex:
+                    off.append((w, repr(ex)[:80]))
+        v.prove("handbook_density_at_%d_C" % round(T - 273.15), not off and not ws, detail=repr((off[:3], [str(x.message) for x in ws][:2])))
     Ts = np.linspace(273.15, 323.15, 11)
     for w in (0.1, 0.3, 0.5, 0.7, 0.9):
         with warnings.catch_warnings():
             warnings.simplefilter("ignore")
-            rho = [float(f(w, T)) for T in Ts]
+            try:
+                rho = [float(f(w, T)) for T in Ts]
+            except Exception as ex:
+                v.prove("falls_with_temperature.w_%02d" % round(w * 10), False, detail=repr(ex)[:200])
+                continue
         rising = [(round(float(Ts[i] - 273.15)), round(rho[i], 1), round(rho[i + 1], 1)) for i in range(len(rho) - 1) if not rho[i + 1] < rho[i]]
         v.prove("falls_with_temperature.w_%02d" % round(w * 10), not rising, detail=repr(rising[:3]))
